@@ -41,7 +41,14 @@ func verifHarness_C19_renderers() {
 		w.hdr["Content-Type"] = []string{preset}
 	}
 	payload := verifBytes("payload", 0, 3)
-	obj := verifPayload{N: "v"}
+	var obj any = verifPayload{N: "v"}
+	// an unencodable value: natively a channel; symbolically the encoder stub is told to fail
+	unencodable := kind >= 4 && verifChoice("unencodable", 2) == 1
+	verifSetGhost("err.json.Encode", unencodable)
+	verifSetGhost("err.xml.Encode", unencodable)
+	if unencodable && !verifSymbolic() {
+		obj = make(chan int)
+	}
 	cb := "cb"
 	var err error
 	doc := ""
@@ -76,6 +83,7 @@ func verifHarness_C19_renderers() {
 		verifCover("C19 raw renderer")
 		return
 	}
+	verifAssert((err != nil) == unencodable, "an encoding failure is returned as an error (and only then)")
 	if err != nil {
 		verifCover("C19 encoder error returned")
 		return
@@ -94,16 +102,16 @@ func verifHarness_C19_renderers() {
 		var back verifPayload
 		switch kind {
 		case 4, 7:
-			verifAssert(json.Unmarshal(w.body, &back) == nil && back.N == obj.N, "JSON body decodes back to the value")
+			verifAssert(json.Unmarshal(w.body, &back) == nil && back.N == "v", "JSON body decodes back to the value")
 		case 5:
 			s := string(w.body)
 			verifAssert(strings.HasPrefix(s, cb+"(") && strings.HasSuffix(s, ");"), "JSONP wraps the encoding as callback(...);")
 			if strings.HasPrefix(s, cb+"(") && strings.HasSuffix(s, ");") {
-				verifAssert(json.Unmarshal([]byte(s[len(cb)+1:len(s)-2]), &back) == nil && back.N == obj.N, "JSONP payload decodes back to the value")
+				verifAssert(json.Unmarshal([]byte(s[len(cb)+1:len(s)-2]), &back) == nil && back.N == "v", "JSONP payload decodes back to the value")
 			}
 		case 6:
 			verifAssert(strings.HasPrefix(string(w.body), xml.Header), "XML body starts with the XML header")
-			verifAssert(xml.Unmarshal(w.body, &back) == nil && back.N == obj.N, "XML body decodes back to the value")
+			verifAssert(xml.Unmarshal(w.body, &back) == nil && back.N == "v", "XML body decodes back to the value")
 		}
 	}
 	verifCover("C19 encoding renderer")
